@@ -332,3 +332,114 @@ def opCID (args obs : List String) : Option DecOut :=
            branch := "cid.stress" }
   | _, _ => none
 end FV.Driver
+
+namespace FV.Driver
+/-- split the trailing `chg= inchg= reuse= [first=]` tokens of a history observation -/
+def splitHist (obs : List String) : List String × Nat × Nat :=
+  let isMeta (t : String) := t.startsWith "chg=" || t.startsWith "inchg=" || t.startsWith "reuse=" || t.startsWith "first="
+  let main := obs.filter (fun t => !isMeta t)
+  let num (pfx : String) := ((obs.find? (·.startsWith pfx)).bind fun t => (t.drop pfx.length).toString.toNat?).getD 0
+  (main, num "chg=", num "inchg=")
+
+def field (pfx : String) (toks : List String) : Option String :=
+  (toks.find? (·.startsWith pfx)).map fun t => (t.drop pfx.length).toString
+
+/-- the event stream is exactly the given entries, one after another (judged by the specification parser) -/
+def streamIsEntries (es : List (Instant × GoVal)) (stream : Bytes) : Bool :=
+  match parseSeq es.length stream with
+  | some (os, []) =>
+    let want := es.map fun (t, v) => renderObj (.arr (.cons (.ext 0 (encodeET t)) (.cons v.toObj .nil)))
+    (renderList os) == want
+  | _ => false
+
+/-- constructor / packer histories -/
+def opHIST (op : String) (args obs : List String) : Option DecOut :=
+  let (main, chg, inchg) := splitHist obs
+  let f07 := (if chg == 0 then [] else [s!"C07 {chg} previously returned value(s) changed"]) ++
+             (if inchg == 0 then [] else [s!"C07 {inchg} caller-supplied argument(s) modified"])
+  let mk (corr : Option String) (fails : List String) (br : String) : Option DecOut :=
+    some { corr := corr, fails := fails ++ f07, branch := s!"hist.{op}.{br}" }
+  match op, args with
+  | "HRESET", _ => mk none [] "-"
+  | "PRIME", _ => mk none [] "-"
+  | "PK", [_, tok] | "CP", [_, tok] =>
+    match parseTok tok with
+    | some (.node "L" ets) =>
+      match treeEntries ets with
+      | none => none
+      | some es =>
+        let menc := marshalPacked es
+        match main with
+        | ["err"] => mk (if menc.isNone then none else some "model encodes, go=err") [] "err"
+        | _ =>
+          let sizeOpt := s!"{es.length}"
+          if op == "PK" then
+            match (field "str=" main).bind parseHex, field "opt=" main with
+            | some s, some o =>
+              let corr := match menc with
+                | some mb => if mb == s && o == s!"O({sizeOpt},-,-)" then none else some s!"model str={toHex mb} opt=O({sizeOpt},-,-)"
+                | none => some "model=err"
+              mk corr ((if streamIsEntries es s then [] else ["C03 event stream is not the concatenation of the entries"]) ++
+                       (if o == s!"O({sizeOpt},-,-)" then [] else ["C03 size option is not the number of entries"])) s!"{es.length}"
+            | _, _ => none
+          else
+            match (field "gunzip=" main).bind parseHex, field "rest=" main, field "complete=" main, field "opt=" main with
+            | some p, some rest, some comp, some o =>
+              let corr := match menc with
+                | some mb => if mb == p then none else some s!"model payload={toHex mb}"
+                | none => some "model=err"
+              mk corr ((if rest == "0" && comp == "true" then [] else ["C03 not exactly one complete gzip member"]) ++
+                       (if streamIsEntries es p then [] else ["C03 decompressed stream is not the concatenation of the entries"]) ++
+                       (if o == s!"O({sizeOpt},-,677a6970)" then [] else ["C03 options are not size + compressed=gzip"])) s!"{es.length}"
+            | _, _, _, _ => none
+    | _ => none
+  | "CB", [_, hx] =>
+    match parseHex hx with
+    | none => none
+    | some inp =>
+      match main with
+      | ["err"] => mk (some "go=err") ["C03 compression failed"] "err"
+      | _ =>
+        match (field "gunzip=" main).bind parseHex, field "rest=" main, field "complete=" main, field "opt=" main with
+        | some p, some rest, some comp, some o =>
+          mk (if p == inp then none else some "payload differs")
+            ((if rest == "0" && comp == "true" then [] else ["C03 not exactly one complete gzip member"]) ++
+             (if p == inp then [] else ["C03 decompressed bytes are not the caller's bytes"]) ++
+             (if o == "O(-,-,677a6970)" then [] else ["C03 not flagged compressed=gzip"])) (if inp.length > 4096 then "big" else "small")
+        | _, _, _, _ => none
+  | "PB", [_, hx] =>
+    match parseHex hx, (field "str=" main).bind parseHex, field "opt=" main with
+    | some inp, some s, some o => mk (if s == inp && o == "N" then none else some "PB differs") [] "-"
+    | _, _, _ => none
+  | "MP", [tok] =>
+    match parseTok tok with
+    | some (.node "L" ets) =>
+      match treeEntries ets with
+      | none => none
+      | some es =>
+        let menc := marshalPacked es
+        match main with
+        | ["err"] => mk (if menc.isNone then none else some "model encodes, go=err") [] "err"
+        | [hx] =>
+          match parseHex hx with
+          | some s =>
+            mk (if menc == some s then none else some "MP bytes differ")
+              (if streamIsEntries es s then [] else ["C03 packed bytes are not the concatenation of the entries"]) s!"{es.length}"
+          | none => none
+        | _ => none
+    | _ => none
+  | "UP", [hx] =>
+    match parseHex hx with
+    | none => none
+    | some b =>
+      let (es, okAll) := unmarshalPacked b
+      let m := s!"{renderEntries es} left=0 {if okAll then "ok" else "err"}"
+      let go := " ".intercalate main
+      mk (if m == go then none else some s!"model=[{m}] go=[{go}]") [] (if okAll then "ok" else "err")
+  | "MM", _ => mk none [] "-"
+  | "GCH", [hx] =>
+    match opCHUNK ["h", hx] main with
+    | some d => mk d.corr d.fails "-"
+    | none => none
+  | _, _ => none
+end FV.Driver
